@@ -85,7 +85,7 @@ def flag_rule(ctx, tk):
     for q, name in (("raggedshape.RaggedView.get_flat_indices", "_get_flat_indices_fast"), ("raggedshape.RaggedShape.broadcast_values", "_broadcast_values_fast")):
         f = ctx.func(q)
         fa = ctx.fa(f)
-        sinks = [n for n, c in find_calls(fa, lambda c, name=name: c.a[0].k == "attr" and c.a[0].a[1] == name)]
+        sinks = [(n, c) for n, c in find_calls(fa, lambda c, name=name: c.a[0].k == "attr" and c.a[0].a[1] == name)]
 
         def e(t):
             if t.k == "call" and t.a[0].k == "attr" and t.a[0].a[1] == "empty_rows_removed":
